@@ -12,11 +12,14 @@ and of the places of `_core.py` that call it (C15).
   `dump`, `reparse`      `dump` strips the link targets; `parse_string(dump(cfg))`
 
 A configuration is a `Jap.NS.KV` (the Namespace model of C11) addressed with the
-one-pass `getK`/`setK`/`delK` (equal to the code's `__getitem__`/`__setitem__`/
-`pop` when no plain dict lies on the key path, C11).  Keys are lists of
+one-pass `getK`/`setK` (equal to the code's `__getitem__`/`__setitem__` when no
+plain dict lies on the key path, C11) and `delKey` (= `Jap.NS.delK` on
+namespaces with unique names, `Jap.Links.delKey_eq_delK`).  Keys are lists of
 segments.  Everything outside the link logic is a parameter (`Env`): the table
 of compute functions (`none` = the function raised), the type check of source
-values and the validation of the final configuration.
+values and the validation of the final configuration.  The assignments that
+reach the parser through defaults, environment, config, object and argv are a
+list of `Input`s in precedence order (the merge itself is C04/C05).
 
 Not modelled: links applied on instantiation (C16), the recursion into the
 selected subcommand's parser (the same function on the sub-namespace), the
